@@ -82,14 +82,28 @@ pub fn help_doc(it: &J) -> bpaf::Doc {
         text.push_str("\n\n");
         text.push_str(&dstr(more));
     }
-    let mut doc = bpaf::Doc::default();
     let cuts: Vec<usize> = it
         .get("help_cuts")
         .and_then(J::as_array)
         .map(|a| a.iter().filter_map(J::as_u64).map(|x| x as usize).collect())
         .unwrap_or_default();
+    doc_from(&text, cuts, b(it, "help_all_nested"))
+}
+
+/// the header of a group (`group_help`): a string, or - with `gh_cuts` - a Doc of several styled fragments
+pub fn group_doc(it: &J, key: &str) -> bpaf::Doc {
+    let cuts: Vec<usize> = it
+        .get("gh_cuts")
+        .and_then(J::as_array)
+        .map(|a| a.iter().filter_map(J::as_u64).map(|x| x as usize).collect())
+        .unwrap_or_default();
+    doc_from(&dstr(s(it, key)), cuts, false)
+}
+
+fn doc_from(text: &str, cuts: Vec<usize>, all_nested: bool) -> bpaf::Doc {
+    let mut doc = bpaf::Doc::default();
     if cuts.is_empty() {
-        doc.text(&text);
+        doc.text(text);
         return doc;
     }
     let chars: Vec<char> = text.chars().collect();
@@ -100,7 +114,7 @@ pub fn help_doc(it: &J) -> bpaf::Doc {
         if c > from {
             // neighbouring fragments of one style are merged by bpaf: alternate the styles
             let frag = chars[from..c].iter().collect::<String>();
-            match if b(it, "help_all_nested") { 3 } else { k % 4 } {
+            match if all_nested { 3 } else { k % 4 } {
                 0 => doc.text(&frag),
                 1 => doc.literal(&frag),
                 2 => doc.emphasis(&frag),
@@ -268,6 +282,8 @@ fn wrap(mut p: P, it: &J) -> P {
                     d
                 })
                 .boxed();
+        } else if it.get("gh_cuts").is_some() {
+            p = p.group_help(group_doc(it, "group_help")).boxed();
         } else {
             p = p.group_help(leak(&dstr(gh))).boxed();
         }
@@ -581,7 +597,11 @@ pub fn build_node(it: &J) -> P {
 fn wrap_hidden_only(mut p: P, it: &J) -> P {
     let gh = s(it, "group_help");
     if !gh.is_empty() {
-        p = p.group_help(leak(&dstr(gh))).boxed();
+        p = if it.get("gh_cuts").is_some() {
+            p.group_help(group_doc(it, "group_help")).boxed()
+        } else {
+            p.group_help(leak(&dstr(gh))).boxed()
+        };
     }
     if b(it, "hide_usage") {
         p = p.hide_usage().boxed();
